@@ -5,6 +5,7 @@ import (
 	"reflect"
 	"regexp"
 	"sort"
+	"strconv"
 	"strings"
 
 	at "github.com/DanielSvub/anytype"
@@ -834,6 +835,74 @@ func c14Mutating(c *fw.Ctx, r *rng.R) {
 		}
 		if !ok {
 			c.Violate("view-wrong:mutating-callback", inL(), "the original elements visited once each, in order", fmt.Sprint(seen))
+		}
+	})
+	// lists: the first callback shortens the list from its end (Pop, Delete of the last index, once or several times): the
+	// elements that stay are visited once each, in order, the removed ones at most once, and the library does not panic
+	pops := r.Range(1, 3)
+	shortenBy := r.Intn(3)
+	m2 := m + pops + 1
+	view8 := r.Intn(8)
+	inP := func() string {
+		return fmt.Sprintf("list of the ints 0..%d; List.%s whose first callback removes the last %d element(s) by %s", m2-1,
+			[]string{"ForEach", "ForEachValue", "ForEachInt", "Map", "MapValues", "MapInts", "Filter", "Reduce"}[view8], pops, []string{"Pop", "Delete(last)", "UnsetTF(#last)"}[shortenBy])
+	}
+	guard(c, inP, func() {
+		c.Distinct(inP())
+		c.Count("mutating_callback_cases")
+		l := at.NewList()
+		for i := 0; i < m2; i++ {
+			l.Add(i)
+		}
+		var seen []int
+		calls := 0
+		act := func(v int) {
+			calls++
+			seen = append(seen, v)
+			if calls == 1 {
+				for k := 0; k < pops; k++ {
+					switch shortenBy {
+					case 0:
+						l.Pop()
+					case 1:
+						l.Delete(l.Count() - 1)
+					default:
+						l.UnsetTF("#" + strconv.Itoa(l.Count()-1))
+					}
+				}
+			}
+		}
+		pan, msg := drive.Protect(func() {
+			switch view8 {
+			case 0:
+				l.ForEach(func(i int, v any) { act(v.(int)) })
+			case 1:
+				l.ForEachValue(func(v any) { act(v.(int)) })
+			case 2:
+				l.ForEachInt(func(v int) { act(v) })
+			case 3:
+				l.Map(func(i int, v any) any { act(v.(int)); return v })
+			case 4:
+				l.MapValues(func(v any) any { act(v.(int)); return v })
+			case 5:
+				l.MapInts(func(v int) any { act(v); return v })
+			case 6:
+				l.Filter(func(v any) bool { act(v.(int)); return true })
+			default:
+				l.Reduce(0, func(a, b any) any { act(b.(int)); return a })
+			}
+		})
+		if pan {
+			c.Violate("view-wrong:mutating-callback", inP(), "the iteration ends normally (the callback itself does not panic)", "panic: "+msg)
+			return
+		}
+		stay := m2 - pops
+		ok := len(seen) >= stay && len(seen) <= m2
+		for i := 0; ok && i < len(seen); i++ {
+			ok = seen[i] == i
+		}
+		if !ok {
+			c.Violate("view-wrong:mutating-callback", inP(), fmt.Sprintf("0..%d visited once each, in order; the removed ones behind them at most once", stay-1), fmt.Sprint(seen))
 		}
 	})
 	// lists: a typed view whose callback turns a not yet visited element of another kind into one of its own kind
